@@ -238,6 +238,35 @@ pub fn sites(tier: Tier) -> Vec<Site> {
             })
     },
     {
+        // a caret (or an escaped caret) at EVERY offset of a 24- or 27-byte text and every printable ASCII
+        // character at EVERY other offset, with a digit or a caret behind that character: implementations that
+        // look for carets a machine word at a time have lanes, and a neighbour of '^' in the character table
+        // ('_', ']') next to a real caret is where a lane test goes wrong
+        let lens = [24usize, 27];
+        let units = ["^", "^^"];
+        let after = ['1', '^', 'a'];
+        let n = (lens.len() * units.len() * after.len() * 27 * 27 * 95) as u64;
+        Site::new("caret-and-any-ascii-at-every-offset", n,
+            "texts of 24 and 27 bytes of filler x a caret or an escaped caret at every offset p x every printable ASCII character at every other offset q x a digit, a caret or a letter behind it",
+            move |i, acc| {
+                let mut j = i as usize;
+                let c = (0x20 + (j % 95)) as u8; j /= 95;
+                let q = j % 27; j /= 27;
+                let p0 = j % 27; j /= 27;
+                let a = after[j % after.len()]; j /= after.len();
+                let u = units[j % units.len()]; j /= units.len();
+                let len = lens[j % lens.len()];
+                if p0 >= len || q >= len { return; }
+                let mut b = vec![b'a'; len];
+                for (k, ub) in u.bytes().enumerate() { if p0 + k < len { b[p0 + k] = ub; } }
+                if q >= p0 && q < p0 + u.len() { return; }
+                b[q] = c;
+                if q + 1 < len && !(q + 1 >= p0 && q + 1 < p0 + u.len()) { b[q + 1] = a as u8; }
+                let s = String::from_utf8(b).unwrap();
+                check(&s, i, "caret-and-any-ascii-at-every-offset", acc);
+            })
+    },
+    {
         // every character of the repertoire right behind a caret, behind
         // an escaped caret, and in front of a digit: what counts as a colour digit, an escape letter or a
         // marker letter must not depend on look-alikes
